@@ -204,11 +204,13 @@ type KnownFinding struct {
 	Commit string `json:"commit,omitempty"`
 }
 
-func loadKnown(path string) map[string]KnownFinding {
-	m := map[string]KnownFinding{}
+// Known is the list of recorded findings; entity, kind and regime may contain '*' wildcards.
+type Known []KnownFinding
+
+func loadKnown(path string) Known {
 	b, err := os.ReadFile(path)
 	if err != nil {
-		return m
+		return nil
 	}
 	var doc struct {
 		Findings []KnownFinding `json:"findings"`
@@ -217,13 +219,50 @@ func loadKnown(path string) map[string]KnownFinding {
 		fmt.Fprintf(os.Stderr, "known findings file unreadable: %v\n", err)
 		os.Exit(2)
 	}
-	for _, k := range doc.Findings {
-		if k.Status == "known" {
-			m[k.Prop+"|"+k.Entity+"|"+k.Kind+"|"+k.Regime] = k
+	var k Known
+	for _, f := range doc.Findings {
+		if f.Status == "known" {
+			k = append(k, f)
 		}
 	}
-	return m
+	return k
 }
+
+// wild reports whether s matches pattern p, where '*' matches any (possibly empty) substring.
+func wild(p, s string) bool {
+	if p == s {
+		return true
+	}
+	parts := strings.Split(p, "*")
+	if len(parts) == 1 {
+		return false
+	}
+	if !strings.HasPrefix(s, parts[0]) {
+		return false
+	}
+	s = s[len(parts[0]):]
+	for i := 1; i < len(parts)-1; i++ {
+		j := strings.Index(s, parts[i])
+		if j < 0 {
+			return false
+		}
+		s = s[j+len(parts[i]):]
+	}
+	return strings.HasSuffix(s, parts[len(parts)-1])
+}
+
+// Match returns the recorded finding that covers v, if any.
+func (k Known) Match(v Violation) (KnownFinding, bool) {
+	for _, f := range k {
+		if f.Prop == v.Prop && wild(f.Entity, v.Entity) && wild(f.Kind, v.Kind) && wild(f.Regime, v.Regime) {
+			return f, true
+		}
+	}
+	return KnownFinding{}, false
+}
+
+// ID is the stable identification printed on KNOWN-FINDING lines.
+func (f KnownFinding) ID() string { return f.Prop + "|" + f.Entity + "|" + f.Kind + "|" + f.Regime }
 
 func splitmix(x uint64) uint64 {
 	x += 0x9e3779b97f4a7c15
@@ -267,6 +306,10 @@ func workerMain() int {
 		c := ck.Gen(rng, tier, k+worker*1000003+round*7)
 		c.Prop = prop
 		c.Seed = seed
+		if os.Getenv("VDEBUG") != "" {
+			b, _ := json.Marshal(c)
+			fmt.Fprintf(os.Stderr, "case %d: %s\n", k, b)
+		}
 		st.Evaluations++
 		st.Entities[c.Entity]++
 		vs := ck.Run(c, st)
@@ -275,9 +318,9 @@ func workerMain() int {
 			st.Samples = append(st.Samples, b)
 		}
 		for _, v := range vs {
-			if kf, ok := known[v.Key()]; ok {
-				if _, seen := st.KnownHits[v.Key()]; !seen {
-					st.KnownHits[v.Key()] = kf.What + " [e.g. " + v.Detail + "]"
+			if kf, ok := known.Match(v); ok {
+				if _, seen := st.KnownHits[kf.ID()]; !seen {
+					st.KnownHits[kf.ID()] = kf.What + " [e.g. " + v.Detail + "]"
 				}
 				continue
 			}
